@@ -124,6 +124,14 @@ theorem generated_panics (σ : World) (parent : Option String) (p : Input) (kind
     (evalCode σ parent code).res = .panic s ↔ (specRun σ parent p kind).res = .panic s := by
   rw [generated_eq_reference σ parent p kind code hs hgen]
 
+/-- …from the tokens the caller wrote: whatever the parser accepts (any behaviour of syn), the code expanded from it panics
+    exactly when — and with the panic with which — the reference semantics of the parsed program does; a panic of user code is
+    never swallowed or replaced. -/
+theorem accepted_panics (o : Oracle) (toks : Toks) (σ : World) (parent : Option String) (p : Input) (kind : Kind)
+    (code : Code) (hparse : parseMacroInput o toks = .ok p) (hd : PlainInvocation p kind) (hgen : gen p kind = .ok code)
+    (s : Site) : (evalCode σ parent code).res = .panic s ↔ (specRun σ parent p kind).res = .panic s :=
+  generated_panics σ parent p kind code (accepted_supported o toks p kind hparse hd) hgen s
+
 /-! ### async macros, every schedule -/
 
 /-- **A panicking chain reaches the caller, whatever the schedule** (non-try async macros).  If, in step `k`, the block
